@@ -1,5 +1,5 @@
 (* C04 — Secure swarms attribute every message to the key its sender proved. *)
-From P2PV Require Import Lib.Base Model.Handshake Model.Channel Model.KeSwarm Proofs.ChannelP.
+From P2PV Require Import Lib.Base Model.Handshake Model.Channel Model.KeSwarm Proofs.ChannelP Model.Wl.
 Open Scope N_scope.
 
 (* p2pkeswarm.  For every fingerprinter, whitelist and every history of a
@@ -58,7 +58,19 @@ Proof.
   exact (D k Hk).
 Qed.
 
+(* ---- wlswarm: a peer rejected by the whitelist never has a message or ask delivered ---- *)
+Theorem C04_whitelist_wrapper_receive : forall allow inner m,
+  In m (wl_receive allow inner) <-> (In m inner /\ allow (w_src m) = true).
+Proof. intros. unfold wl_receive. apply filter_In. Qed.
+
+(* ... and nothing is sent or asked towards a rejected address *)
+Theorem C04_whitelist_wrapper_send : forall allow m m',
+  wl_send allow m = Some m' -> m' = m /\ allow (w_dst m) = true.
+Proof. intros allow m m'. unfold wl_send. destruct (allow (w_dst m)); [intros [= <-]; auto|discriminate]. Qed.
+
 Print Assumptions C04_attribution_and_whitelist.
 Print Assumptions C04_tell_reaches_only_the_identity.
 Print Assumptions C04_outbound_channel_binds_only_want.
 Print Assumptions C04_inbound_channel_binds_only_whitelisted.
+Print Assumptions C04_whitelist_wrapper_receive.
+Print Assumptions C04_whitelist_wrapper_send.
